@@ -126,6 +126,23 @@ Proof.
   intros. unfold rt_imod, emit_imod, emitted_imod_helper, lmod. change rt_maybe_negative with true. change imod_guard_first with true. cbn [orb].
   replace (b =? 0) with false by lia. apply h_imod_I64; auto.
 Qed.
+(* the dependence on the scraped fact, for every answer of Attr:is_maybe_negative: the emitted `//` and `%` of
+   run-time int64 operands are Lua's for all operands exactly when the operand is treated as possibly negative (the
+   floor helpers); treated as non-negative, the bare C operators truncate: -7 // 2 = -3, -7 % 2 = -1 (Lua -4, 1) *)
+Lemma idiv_maybe_negative_iff mn :
+  (forall nochecks a b, in_i64 a -> in_i64 b -> b <> 0 ->
+     emit_idiv idiv_guard_first base_mode I64 mn nochecks a b = lua_out (lidiv a b) /\
+     emit_imod imod_guard_first base_mode I64 mn nochecks a b = lua_out (lmod a b)) <-> mn = true.
+Proof.
+  split.
+  - intro H. destruct mn; [reflexivity|]. destruct (H false (-7) 2) as [H1 _]; [vm_compute; split; discriminate|vm_compute; split; discriminate|discriminate|].
+    vm_compute in H1. discriminate H1.
+  - intros -> nochecks a b Ha Hb H0. split; [apply (rt_idiv_ok nochecks a b Ha Hb H0)|apply (rt_imod_ok nochecks a b Ha Hb H0)].
+Qed.
+Example idiv_not_maybe_negative_truncates :
+  emit_idiv idiv_guard_first base_mode I64 false false (-7) 2 = ORet (-3) /\ lua_out (lidiv (-7) 2) = ORet (-4) /\
+  emit_imod imod_guard_first base_mode I64 false false (-7) 2 = ORet (-1) /\ lua_out (lmod (-7) 2) = ORet 1.
+Proof. vm_compute. repeat split; reflexivity. Qed.
 Lemma rt_div_zero a : in_i64 a ->
   rt_idiv false a 0 = lua_out (lidiv a 0) /\ rt_imod false a 0 = lua_out (lmod a 0).
 Proof. intros. split; reflexivity. Qed.
